@@ -61,7 +61,13 @@
 (*  SCEN    the classes of floating-point scenarios                        *)
 (*                                                                         *)
 (* cfg ElasticJudge: THE LAW for the integer measures the harness records  *)
-(* from pydrex (exact replays and float scenarios alike), see Law below.   *)
+(* from pydrex (exact replays and float scenarios alike), see Law below:   *)
+(* moduli and percent anisotropy to 1e-9 (relative, DESIGN 6) and within   *)
+(* [0, 100], unit axis - always; percentages unchanged and axis = +-R axis0 *)
+(* to 1e-6 - where the symmetry axes are well conditioned (relative eigen- *)
+(* gaps of d and v >= 1e-4, unique nearest-eigenvector pairing, no exact   *)
+(* tie of the hexagonal axis; otherwise skipped and counted); mono = tric  *)
+(* = 0 and Pythagoras to 1e-6 - for the orthorhombic classes only.         *)
 (*                                                                         *)
 (* Number ranges (TLC integers are 32-bit, overflow is an error):          *)
 (*  rotations have denominator <= 3 (Mat3!SmallRots: 24 octahedral + 16);  *)
@@ -215,17 +221,20 @@ OrthoClasses == {"ortho", "builtin"} \cup {s.cls : s \in {x \in Scen : x.ortho}}
 \* One ndjson line per evaluation of elasticity_components on a frame-rotated input, compared with the
 \* exact values (kind "exact") or the term program (kind "float") and with the implementation's own
 \* output on the unrotated input.  Measures m.* are non-negative integers in units of 1e-12 (capped at
-\* 2e9); gapD, gapV = smallest relative eigenvalue gap of d and v in units of 1e-9.
+\* 2e9); gapD, gapV = smallest relative eigenvalue gap of d and v in units of 1e-9; pairGap = smallest
+\* difference between the two largest |cos| of an eigenvector of d with the eigenvectors of v, in 1e-9.
 TraceLog == IF Mode = "judge" THEN ndJsonDeserialize(IOEnv.TRACE_FILE) ELSE <<>>
 TolExact == 1001          \* |impl - exact| <= 1e-9 * max(1, |exact|) + 1e-12          (DESIGN 6)
 TolMeta == 1000000        \* 1e-6: metamorphic clauses (percent units / unit-vector components)
 GapMargin == 100000       \* 1e-4 relative: below it the symmetry axes are ill conditioned (quantifier)
-MKeys == {"kDev", "gDev", "anisoDev", "rangeOut", "pctDev", "unitDev", "axisDev", "mono", "tric", "pyth", "gapD", "gapV"}
+PairMargin == 1000        \* 1e-6: an eigenvector of d equally close (|cos|) to two eigenvectors of v - the axes
+                          \* built from matched pairs of eigenvectors are then not well defined either
+MKeys == {"kDev", "gDev", "anisoDev", "rangeOut", "pctDev", "unitDev", "axisDev", "mono", "tric", "pyth", "gapD", "gapV", "pairGap"}
 Wellformed(e) == /\ {"sid", "kind", "cls", "finite", "hexTie", "m"} \subseteq DOMAIN e
                  /\ e.kind \in {"exact", "float"} /\ e.finite \in BOOLEAN /\ e.hexTie \in BOOLEAN
                  /\ MKeys \subseteq DOMAIN e.m /\ \A k \in MKeys : e.m[k] \in Nat
 Over(x, tol, name) == IF x > tol THEN <<name>> ELSE <<>>
-AxesOK(e) == e.m.gapD >= GapMargin /\ e.m.gapV >= GapMargin /\ ~e.hexTie
+AxesOK(e) == e.m.gapD >= GapMargin /\ e.m.gapV >= GapMargin /\ e.m.pairGap >= PairMargin /\ ~e.hexTie
 Law(e) ==
   IF ~Wellformed(e) THEN <<"malformed">>
   ELSE IF ~e.finite THEN <<"not-finite">>
@@ -243,6 +252,7 @@ Law(e) ==
                 \o Over(m.pyth, TolMeta, "class-squares-do-not-sum") ELSE <<>>)
 Skips(e) == IF ~Wellformed(e) THEN <<>>
             ELSE (IF e.m.gapD < GapMargin \/ e.m.gapV < GapMargin THEN <<"eigenvalues-not-separated">> ELSE <<>>)
+              \o (IF e.m.pairGap < PairMargin THEN <<"eigenvector-pairing-ambiguous">> ELSE <<>>)
               \o (IF e.hexTie THEN <<"hexagonal-axis-tie">> ELSE <<>>)
 
 \* ------------------------------------------------------------------ behaviour: one-shot evaluation
@@ -324,7 +334,7 @@ Tables == [rots |-> [r \in 1..NRot |-> RotSeq[r]], identity |-> IdIdx,
            program |-> Program, dil |-> DilTerms, dev |-> DevTerms,
            params |-> [k \in 1..Len(SymBasisSeq) |-> [name |-> ParamName(SymBasisSeq[k]), i |-> SymBasisSeq[k][1], j |-> SymBasisSeq[k][2]]],
            vidx |-> [p \in I3 |-> [q \in I3 |-> VoigtIdx(p, q)]], vpair |-> [i \in I6 |-> VoigtPair(i)],
-           tolExact |-> TolExact, tolMeta |-> TolMeta, gapMargin |-> GapMargin,
+           tolExact |-> TolExact, tolMeta |-> TolMeta, gapMargin |-> GapMargin, pairMargin |-> PairMargin,
            orthoClasses |-> SetToSeq(OrthoClasses),
            counts |-> [tensors |-> NLib, ortho |-> NOrtho, cands |-> Cardinality(OrthoCands), notPD |-> NotPD,
                        notDistinct |-> NotDistinct, rots |-> NRot, scen |-> Cardinality(Scen)]]
